@@ -23,6 +23,7 @@ type peSpec struct {
 	sohSlack  int         // extra bytes between the section table and SizeOfHeaders
 	trailing  int         // bytes after the last section
 	certs     [][]byte    // existing certificate-table entries (payloads)
+	certUnpadded bool     // the last table entry is not padded: the directory Size is not a multiple of 8
 	padToEight bool       // when no table: leave the length as it falls (false) or pad (true)
 }
 
@@ -175,14 +176,15 @@ func (s peSpec) build(rng *rand.Rand) peImage {
 			img = append(img, 0)
 		}
 		va := len(img)
-		for _, c := range s.certs {
+		for ci := range s.certs {
+			c := s.certs[ci]
 			l := 8 + len(c)
 			e := make([]byte, 8)
 			binary.LittleEndian.PutUint32(e, uint32(l))
 			binary.LittleEndian.PutUint16(e[4:], 0x0200)
 			binary.LittleEndian.PutUint16(e[6:], 0x0002)
 			e = append(e, c...)
-			for len(e)%8 != 0 {
+			for len(e)%8 != 0 && !(s.certUnpadded && ci == len(s.certs)-1) {
 				e = append(e, 0)
 			}
 			img = append(img, e...)
